@@ -559,7 +559,7 @@ def guarded_history(ctx, spec):
 
 def plan(tier, seed):
     if tier == "quick":
-        return [{"task": "hyp", "examples": 9} for _ in range(16)]
+        return [{"task": "hyp", "examples": 14} for _ in range(16)]
     return [{"task": "hyp", "examples": 220} for _ in range(16)]
 
 
@@ -568,7 +568,11 @@ def run_task(ctx, task, **kw):
         raise core.HarnessError(f"unknown task {task}")
     ebd.ensure_generated()
     try:
-        core.hyp_run(ctx, worlds(), lambda w: guarded_history(ctx, w), kw["examples"], chunk=3)
+        def one(w):
+            if not ctx.out_of_time():      # budget guard per history (a chunk always starts with hypothesis' minimal
+                guarded_history(ctx, w)    # example, so chunks are kept large and the guard sits here instead)
+
+        core.hyp_run(ctx, worlds(), one, kw["examples"], chunk=kw["examples"])
     finally:
         ER.shutdown_daemons()
 
